@@ -3,6 +3,7 @@
 //! resource's own task through `set_inner_value` / `notify_subs`.
 //!
 //! case  (1 (kind_0 .. kind_{k-1}) (t_0 t_1 ...))      thread ids: 0..k-1 awaiters, k completer
+//!       (10 (kind) sched)  same with ONE awaiter whose waker vtable (clone, wake_by_ref) is a yield point
 //! obs   (((status value polls) per awaiter) completer_status hang)
 //!        status: 1 = completed, 0 = still pending when everything else had finished
 use crate::{ctl::Ctl, exec};
@@ -18,7 +19,7 @@ use vsexp::{Lst, Num, Sexp};
 
 pub const VALUE: i64 = 42;
 
-pub fn run(case: &Sexp) -> Sexp {
+pub fn run(case: &Sexp, user_points: bool) -> Sexp {
     let kinds = case.at(1).nums();
     let sched = case.at(2).nums();
     let k = kinds.len();
@@ -47,10 +48,14 @@ pub fn run(case: &Sexp) -> Sexp {
     assert!(!task.poll());
     task.take_woken();
 
-    let ctl = Ctl::new(
-        k + 1,
-        &["await:loaded", "ad:value_stored", "ad:loading_cleared", "ad:before_drain"],
-    );
+    let mut active = vec!["await:loaded", "ad:value_stored", "ad:loading_cleared", "ad:before_drain"];
+    if user_points {
+        // the awaiter's waker is user code called by the library (clone happens inside
+        // `park_if_still_loading`, under the wakers lock in the current code)
+        active.push("user:waker_clone");
+        active.push("user:waker_wake_by_ref");
+    }
+    let ctl = Ctl::new(k + 1, &active);
     let results: Arc<Mutex<Vec<(i64, i64, i64)>>> = Arc::new(Mutex::new(vec![(0, 0, 0); k]));
     let cdone = Arc::new(Mutex::new(0i64));
 
@@ -76,7 +81,7 @@ pub fn run(case: &Sexp) -> Sexp {
                     })
                 }
             };
-            let (flag, waker) = exec::flag();
+            let (flag, waker) = if user_points { exec::user_waker() } else { exec::flag() };
             let mut polls = 0;
             loop {
                 polls += 1;
